@@ -2,6 +2,7 @@ import PartituraModel.Wire
 import PartituraModel.Model.Kern
 import PartituraModel.Model.Mei
 import PartituraModel.Model.KernWrite
+import PartituraModel.Model.LoadDispatch
 
 open Wire Model
 
@@ -185,6 +186,10 @@ def handle (ts : List String) : String :=
         orErr <| (KernWrite.writeKern p).bind fun rows => (Kern.denote rows).map fun parts =>
           fmtList fmtFact (missing (KernWrite.facts p) ((parts.map fun q => q.notes.map KernWrite.factOfKernNote).flatten))
       | _ => "bad-request"
+  | "disp" :: rest =>
+    orErr <| (run str rest).bind fun path => (LoadDispatch.dispatch path.toList).map (·.name)
+  | ["dtab"] =>
+    fmtList (fun (e : String × LoadDispatch.Reader) => fmtTuple [e.1, e.2.name]) LoadDispatch.table
   | ["ktab", "wdurs"] =>
     fmtList (fun (e : String × List Char) => fmtTuple [e.1, String.ofList e.2]) KernWrite.kernDursW
   | ["ktab", "wacc"] =>
